@@ -21,12 +21,12 @@ QUICK = dict(gen=4000, exhaustive_len=4, timeout=120)
 THOROUGH = dict(gen=120000, exhaustive_len=5, timeout=900)
 
 T0_US = 1000 * 1000000            # every script starts at virtual time 1000.0 s
-HORIZON_US = T0_US + 20 * 1000000  # float-safe window, see float_safe()
+HORIZON_US = T0_US + 8000 * 1000000  # scripts stay inside [1000 s, 9000 s); every instant is checked by float_safe()
 RESF = {0: 0, 1000: 0.001, 10000: 0.01, 50000: 0.05}
 
 TRUSTED = ['heapq (the model keeps the heap as a list sorted by (deadline, seq))',
            'gevent Event/sleep/spawn semantics on the virtual loop',
-           'float arithmetic of Schedule/_TimerWorker on millisecond instants in [1000 s, 1020 s) '
+           'float arithmetic of Schedule/_TimerWorker on millisecond instants in [1000 s, 9000 s) '
            '(checked per script by float_safe; the virtual clock is set to the float the code itself '
            'computes for an instant on the resolution grid)']
 ASSUMPTIONS = ['the queue\'s time source is the clock Event.wait(timeout) sleeps on (true for '
@@ -56,8 +56,20 @@ def gen_script(rng, tier):
     kinds = [k for k, n in sorted(w.items()) for _ in range(n)]
     n = rng.choice([6, 10, 16, 24, 40, 60] if tier != 'thorough' else [6, 10, 16, 24, 40, 60, 100])
     ops, nsched = [], 0
+    # a sixth of the scripts look far ahead: deadlines a minute, minutes or an hour away next to near ones, and the
+    # clock moving in correspondingly large steps (a worker that caps or re-arms its sleep must not fire early or late)
+    far = rng.random() < 0.17
+    offs = OFFS + [5000, 30000, 59990, 60000, 60010, 61000, 90000, 300000, 1200000] * 2 if far else OFFS
+    steps = STEPS_MS + [1000, 20000, 59990, 60000, 60010, 120000, 600000] if far else STEPS_MS
     for _ in range(n):
         k = rng.choice(kinds)
+        if far and k in ('s', 'sr', 't', 'a'):
+            if k in ('s', 'sr'):
+                ops.append([k, rng.choice(offs)] + ([rng.choice([-10, 0, 5, 10, 20])] if k == 'sr' else []))
+                nsched += 1
+            else:
+                ops.append([k, rng.choice(steps)])
+            continue
         if k == 's':
             ops.append(['s', rng.choice(OFFS)])
             nsched += 1
@@ -170,6 +182,7 @@ def run_script(script):
         spawned = []               # seqs in spawn order
         executed = []              # seqs in execution order
         nsched = 0
+        skipped_unsafe = 0
         info = {}                  # seq -> dict(d, rd, t_sched)
         cancelled_at = {}
 
@@ -277,8 +290,11 @@ def run_script(script):
 
         def do_schedule(off_ms, chain=None):
             d_us = now_us() + off_ms * 1000
-            if not float_safe(d_us, res_us) or d_us > HORIZON_US:
+            if d_us > HORIZON_US:
                 raise RuntimeError('instant outside the float-safe window: %d' % d_us)
+            if not float_safe(d_us, res_us):
+                R.skipped_unsafe += 1        # the float the code computes for this instant is off the grid: not scheduled
+                return
             R.nsched += 1
             k = R.nsched
             rd = ceil_us(d_us, res_us)
